@@ -42,6 +42,10 @@ def ritem(it, params=False):
         return pname(it["i"])
     if k == "sum":
         return "%s + %s" % (ritem(it["a"]), ritem(it["b"]))
+    if k == "stmt":
+        tmp = []
+        rstmt(it["s"], tmp, 0)
+        return tmp[0].strip()
     return A.render_item(it)
 
 
@@ -59,6 +63,8 @@ def rstmt(s, out, variant):
             rstmt(b, out, variant)
         out.append(".endm")
         CUR["scheme"] = 0
+    elif k == "pstmt":
+        out.append(pname(s["i"]))
     elif k == "invoke":
         out.append("%s%s" % (s["n"], "(%s)" % ", ".join(ritem(a) for a in s["args"]) if s["args"] else ""))
     elif k == "repeat":
